@@ -12,6 +12,52 @@ NOTE_SYS = ("Trusted: Coq 8.16.1 kernel (+vm_compute for examples), extraction (
             "only if the generated histories distinguish it.")
 
 TEXTS = {
+ "C02": ("Kernel-checked theorems: system-wide invariant over ALL histories and schedules that every reported record "
+         "carries a trace id supplied with a sampled root; a root's token/record carry the supplied trace id and remote "
+         "parent; issued child tokens name the issuing span as parent, one item per parent; records of a local-span set "
+         "are in the token's trace, set roots under the token's parent, others under their recorded parent; the first "
+         "n < 2^32 ids of a thread are pairwise distinct, non-zero for a non-zero prefix and differ across prefixes. "
+         "The unbounded id claim is refuted in Coq (K3, known finding). Tied to the code by exact comparison of "
+         "(trace, id, parent) of every reported record on orchestrated histories.", "DESIGN.md 6/C02"),
+ "C05": ("Kernel-checked system-wide theorem by induction over all histories (any threads, programs, schedules of ring "
+         "pushes / thread exits / collector micro-steps, both configurations, any capacities): every reported record "
+         "carries the trace id of a root created with sampled=true; a trace id given only to unsampled roots yields no "
+         "reporter output at all. Proved through an invariant over every token item in the system (spans, adapters, "
+         "scopes, closures in progress, outboxes, rings, overflow lists, batch, buffered collections). Tied to the "
+         "code by orchestrated histories with 1/3 unsampled roots and mixed-parent spans, comparing reports and "
+         "extracted contexts.", "DESIGN.md 6/C05"),
+ "C06": ("Kernel-checked theorems on record construction for every dangling map and span set: an attachment is parked "
+         "under its target id behind earlier ones and yields no record; other buckets are untouched; when the target is "
+         "processed (any later cycle) it takes the whole bucket after its own properties, in parking order, exactly "
+         "once; records without a bucket are delivered unchanged; mounting never changes ids/parents/times/names. The "
+         "same-trace double copy (K2) is refuted by a vm_compute witness and listed as known finding; cross-queue "
+         "reordering is K1. Tied to the code by full comparison of properties/events of every record with cycles placed "
+         "anywhere between attachment and finish.", "DESIGN.md 6/C06"),
+ "C11": ("Kernel-checked theorems about the model of id.rs/span.rs: from_span returns trace id and flag of the first "
+         "token item and the span's own id (None for no-op spans); current_local_parent returns the innermost scope's "
+         "first item with the innermost open local span as span id (None without scope); the record of a root built "
+         "from a context has that trace id and that parent id; traceparent round trip from C12. Tied to the code by "
+         "comparing every extracted context and every record's ids on orchestrated histories.", "DESIGN.md 6/C11"),
+ "C13": ("Kernel-checked theorems: the poll's scope carries the adapter span's issued token; set-local-parent + any "
+         "well-nested body + guard drop restores the local context exactly (from the C10 induction); the span is taken "
+         "exactly per the method/result table; at the end of a poll everything the guard submits is pushed before the "
+         "span's own submit and commit. Tied to the code by scripted inner futures polled step by step on real "
+         "threads (Pending/Ready scripts, migration between threads, drop before completion, cycles inside the final "
+         "call).", "DESIGN.md 6/C13"),
+ "C14": ("Same adapter model and theorems as C13 instantiated for fastrace-futures' Stream (poll_next: taken on "
+         "Ready(None)) and Sink (poll_ready/start_send/poll_flush never take, poll_close takes on completion); tied to "
+         "the code by scripted streams and sinks driven through every method on real threads.", "DESIGN.md 6/C14"),
+ "C16": ("Kernel-checked theorems for the enabled build: every call on a no-op span, every root before a reporter is "
+         "installed, every local operation without a local parent and every not-recording local span changes nothing, "
+         "pushes nothing and invokes no property closure. Tied to the code by comparing closure invocation flags, "
+         "elapsed/context results and reports on orchestrated histories. The build without `enable` is exercised by "
+         "the disabled-build stream (partial: constant model).", "DESIGN.md 6/C16"),
+ "C17": ("Kernel-checked theorems for every captured forest: to_span_records equals what pushing the set delivers "
+         "(same code path, same anchor); two copies of a set agree on ids, begin, duration and name of every span in "
+         "order, whatever the parents and whatever is parked; each copy is in its parent's trace with set roots under "
+         "that parent; open spans are closed at the collection time. Durations across different cycles may differ by "
+         "1 ns (K6, known finding; not modelled: the model's conversion is anchor-free). Tied to the code by comparing "
+         "to_span_records output and pushed copies.", "DESIGN.md 6/C17"),
  "C03": ("Kernel-checked theorems about the model of GlobalCollector::handle_commands, for every collector state "
          "and every batch: in cancelable mode every reported record belongs to a collect id whose CommitCollect is in "
          "that very batch (hold), an inactive trace that is not restarted is never reported again (nothing afterwards), "
